@@ -380,6 +380,54 @@ class NodeRange(Contract):
         "a_point_is_in_the_box_iff_the_tree_routes_it_to_the_leaf", z3.BoolVal(True))}
 
 
+applyF = z3.Function("apply", models.Est, models.Row, z3.IntSort())        # ghost: the leaf a fitted scikit-learn tree routes a row to
+
+
+@contract(S + "::predict_leaves", "C12")
+class PredictLeaves(Contract):
+    """for a fitted scikit-learn tree (any number of nodes, any batch): predict_leaves(model, X)[r] is the leaf the tree routes row r to"""
+
+    def setup(self, E, v):
+        m = E.size("node_count", 1)
+        model = models.new_estimator(E, "tree_model", methods=("fit", "predict", "apply", "decision_path", "get_params", "set_params"), fitted=True)
+        model.fields["$fitted_attrs"] = {"tree_"}
+        t = Obj("Tree", tag="Tree")
+        cl = E.nd("children_left", (m,), "int")
+        t.fields.update(cnt=m, node_count=m, children_left=cl)
+        t.fields["$children_left"] = cl
+        model.fields["tree_"] = t
+        return dict(model=model, X=E.nd("X", (E.size("n", 0), E.size("d", 1))), _cl=cl, _m=m)
+
+    def requires(self, E, a):
+        # ASSUMED about scikit-learn (stated as a precondition): decision_path marks, among the leaves, exactly the leaf `apply` returns
+        st = a.model.fields["$state"]
+        R = E.registry
+        row = z3.Const("rho!pl", models.Row)
+        j = z3.Int("j!pl")
+        m = z(a._m)
+        return {"the_tree_has_as_many_nodes_as_the_decision_path_has_columns": R.nodesF(st) == m,
+                "every_row_ends_in_exactly_one_leaf_the_one_apply_returns": z3.ForAll([row, j], z3.And(
+                    applyF(st, row) >= 0, applyF(st, row) < m, a._cl.get(applyF(st, row)) == -1,
+                    z3.Implies(z3.And(j >= 0, j < m, a._cl.get(j) == -1), (R.pathF(st, row, j) == 1) == (j == applyF(st, row))),
+                    z3.Implies(z3.And(j >= 0, j < m), z3.Or(R.pathF(st, row, j) == 0, R.pathF(st, row, j) == 1))))}
+
+    def old(self, E, a):
+        return dict(X=a.X.snapshot(), w=a.X.cell.writes)
+
+    def ensures(self, E, a, res, old, shifted=False):
+        ok = isinstance(res, NdArr) and res.ndim == 1
+        out = {"one_leaf_per_row": z3.BoolVal(ok) if not ok else z(res.shape[0]) == z(a.X.shape[0])}
+        if ok:
+            st = a.model.fields["$state"]
+            out["each_row_gets_the_leaf_the_tree_routes_it_to"] = E.forall_range(
+                [(0, z(a.X.shape[0]))], lambda r: res.get(r) == applyF(st, models.row_of(E, old["X"], r)) + (1 if shifted else 0))
+            out["batch_not_written"] = z3.BoolVal(a.X.cell.writes == old["w"])
+        return out
+
+    canaries = {"next_node_instead_of_the_leaf": lambda E, a, res, old: PredictLeaves().ensures(E, a, res, old, shifted=True).get(
+        "each_row_gets_the_leaf_the_tree_routes_it_to", z3.BoolVal(True))}
+
+
 META = dict(
     level="proof", assumptions=["A1", "A2", "A6", "A7", "A9"],
     trusted=["Tree._add_node (scikit-learn; the Cython wrapper tree_add_node of this repository is executed from the text extracted from "
@@ -391,5 +439,7 @@ META = dict(
                     "Known finding: x or a bin edge that is not float32-exact (pinned witness in KNOWN_FINDINGS.json)",
                     "tree_node_range (with tree_node_parents, tree_find_path_to_root): proved for 5 tree SHAPES (up to 7 nodes, depth 3) x every leaf, "
                     "complete in the numbering of the nodes, split features, thresholds and the point - arbitrary shapes by induction are not built",
-                    "predict_leaves on fitted trees: bounded stand-in (sparse decision_path, argmax)"],
+                    "predict_leaves: PROVED for any number of nodes and rows (filtered comprehension through the mask ghost, sparse column "
+                    "selection, argmax) GIVEN the scikit-learn contract that decision_path marks, among the leaves, exactly the leaf apply returns "
+                    "(a precondition here, checked natively by the bounded stand-in)"],
 )
